@@ -1,6 +1,6 @@
-(* C15 - the monitor of Cases/CasesC15.v evaluated on the model's own trace raises nothing but the
-   two recorded findings, for every world, start state and history.  Hence an alarm with any other
-   tag on an implementation trace means the implementation left the model (or the property). *)
+(* C15 - the monitor of Cases/CasesC15.v evaluated on the model's own trace raises no tag, for every
+   world, start state and history.  Hence any alarm on an implementation trace means the
+   implementation left the model (or the property). *)
 From FositeModel Require Import Base.Str Model.Scope Model.Assertion Proofs.ScopeProofs Proofs.MonitorC12
      Proofs.JwtStore Proofs.AssertionProofs Proofs.JwtHistory Cases.CasesC15.
 Local Open Scope Z_scope.
@@ -40,21 +40,19 @@ Qed.
 (* ------------------------------------------------------------------ clauses of an accepted client assertion *)
 Lemma ca_checks_model w nw st a st' cid sub :
   client_auth (w_tus w) (w_clients w) nw st a = (st', Acc cid sub) ->
-  forall tag, In tag (ca_checks w nw a cid) -> tag = "ca:exp_zero_accepted".
+  ca_checks w nw a cid = [].
 Proof.
   intros H. pose proof H as H0. apply client_auth_accept_iff in H0 as (_ & j0 & e0 & Hpre & _).
   destruct Hpre as (Hty & _).
   apply client_assertion_sound in H as (c & keys & k & j & e & Hs).
-  destruct Hs as (Hc & Hm & Hk & Hin & Hu & Hv & _ & Ha & Hcls & Hi & Hsub & Haud & He & Hexp & Hj & Hj0 & _).
+  destruct Hs as (Hc & Hm & Hk & Hin & Hu & Hv & _ & Ha & Hcls & Hi & Hsub & Haud & He & _ & Hexp & Hj & Hj0 & _).
   unfold ca_checks. rewrite Hty, String.eqb_refl, Hc, Hm, Ha, Hk, Hi, Hsub, He, Hj. cbn [jstr_is tag_unless app].
   rewrite !String.eqb_refl. cbn [andb tag_unless app].
   assert (A1 : asymmetric_alg (ca_alg a) = true) by (apply asymmetric_of_class; tauto).
   assert (A2 : existsb (fun k0 => existsb (Nat.eqb (k_kp k0)) (ca_ver a)) keys = true).
   { apply existsb_exists. exists k. split; [assumption|now apply existsb_nat_in]. }
   rewrite A1, A2, (aud_has_of_contains _ _ Haud). apply String.eqb_neq in Hj0. rewrite Hj0. cbn [negb tag_unless app].
-  intros tag Ht. rewrite app_nil_r in Ht.
-  destruct (Z.leb_spec (unix nw) e); [easy|]. destruct Hexp as [Hx| ->]; [lia|].
-  cbn in Ht. destruct Ht as [<-|[]]. reflexivity.
+  destruct (Z.leb_spec (unix nw) e); [reflexivity|lia].
 Qed.
 
 (* ------------------------------------------------------------------ clauses of an accepted grant *)
@@ -104,18 +102,10 @@ Proof.
   apply String.eqb_eq in Hj. subst j0. apply Z.leb_le in Hle. specialize (H e0 Hin). lia.
 Qed.
 
-Lemma jti_checks_client nw seen j e :
-  no_live nw seen j -> (unix nw <= e \/ e = 0) ->
-  forall tag, In tag (jti_checks true nw seen (j, e)) -> tag = "ca:replay_in_final_second".
-Proof.
-  intros Hn Hexp tag. unfold jti_checks. rewrite (reuse_false _ _ _ Hn).
-  destruct (existsb _ seen); [|easy]. cbn [andb].
-  destruct (Z.eqb_spec e 0); [easy|].
-  destruct (Z.leb_spec (unix nw) e); [|lia]. intros [<-|[]]. reflexivity.
-Qed.
-
-Lemma jti_checks_bearer nw seen j e :
-  no_live nw seen j -> nw <= e * 1000 -> jti_checks false nw seen (j, e) = [].
+(* both kinds of assertion: an accepted one is not past the instant of its exp, so it cannot be an
+   assertion the monitor has already seen accepted *)
+Lemma jti_checks_silent ic nw seen j e :
+  no_live nw seen j -> nw <= e * 1000 -> jti_checks ic nw seen (j, e) = [].
 Proof.
   intros Hn Hle. unfold jti_checks. rewrite (reuse_false _ _ _ Hn).
   destruct (existsb _ seen) eqn:E; [|reflexivity].
@@ -143,11 +133,10 @@ Proof.
   - apply step_persist; [now apply Hinv|now rewrite Hnow].
 Qed.
 
-Definition known (tag : string) : Prop := tag = "ca:exp_zero_accepted" \/ tag = "ca:replay_in_final_second".
 
 Lemma step_tags_model w s o seen :
   mon_inv seen s ->
-  (forall tag, In tag (fst (step_tags w (now s) seen o (res_obs (snd (step w s o))))) -> known tag) /\
+  (forall tag, In tag (fst (step_tags w (now s) seen o (res_obs (snd (step w s o))))) -> False) /\
   snd (step_tags w (now s) seen o (res_obs (snd (step w s o)))) = marks o (snd (step w s o)).
 Proof.
   intros Hinv. destruct o as [d|a|ca b].
@@ -156,13 +145,10 @@ Proof.
     cbn in *. destruct (client_auth (w_tus w) (w_clients w) (now s) (jt s) a) as [st' r] eqn:H. cbn in *.
     destruct r as [cid sub|x]; cbn; [|split; [easy|reflexivity]].
     split; [|reflexivity]. intros tag Ht. apply in_app_or in Ht as [Ht|Ht].
-    + left. eapply ca_checks_model; eassumption.
-    + right. destruct (client_auth_mark _ _ _ _ _ _ _ _ H) as (j & e & Hm & _).
-      rewrite ca_marks_eq, Hm in Ht. cbn in Ht. rewrite app_nil_r in Ht.
-      apply client_assertion_sound in H as (c & keys & k & j' & e' & Hs).
-      destruct Hs as (_ & _ & _ & _ & _ & _ & _ & _ & _ & _ & _ & _ & He & Hexp & _).
-      assert (e' = e). { unfold ca_mark in Hm. rewrite He in Hm. destruct (ca_jti a); try discriminate. now injection Hm. }
-      subst e'. eapply jti_checks_client; [|exact Hexp|exact Ht].
+    + rewrite (ca_checks_model _ _ _ _ _ _ _ H) in Ht. easy.
+    + destruct (client_auth_mark _ _ _ _ _ _ _ _ H) as (j & e & Hm & _ & Hle).
+      rewrite ca_marks_eq, Hm in Ht. unfold flat_map in Ht. rewrite app_nil_r in Ht.
+      rewrite jti_checks_silent in Ht; [easy| |assumption].
       apply (Hnl j e Hinv). rewrite Hm. now left.
   - pose proof (inv_no_live w s (OGrant ca b) seen) as Hnl.
     cbn in *. destruct (grant_request w (now s) (jt s) ca b) as [st' r] eqn:H. cbn in *.
@@ -173,29 +159,26 @@ Proof.
     { (* clauses of the client assertion *)
       destruct Hc as [[-> _]|(a & s0 & -> & Hc)].
       - destruct ca; cbn in Ht; easy.
-      - destruct (String.eqb cid ""); [easy|]. left. eapply ca_checks_model; eassumption. }
+      - destruct (String.eqb cid ""); [easy|]. rewrite (ca_checks_model _ _ _ _ _ _ _ Hc) in Ht. easy. }
     apply in_app_or in Ht as [Ht|Ht]. { rewrite (jb_checks_model _ _ _ _ _ _ _ _ _ Hb) in Ht. easy. }
     apply in_app_or in Ht as [Ht|Ht].
     { (* jti of the client assertion *)
       destruct ca as [a|]; [|easy]. destruct (String.eqb_spec cid "") as [|Hne]; [easy|].
       destruct Hc as [[-> _]|(a' & s0 & [= <-] & Hc)]; [easy|].
-      destruct (client_auth_mark _ _ _ _ _ _ _ _ Hc) as (j & e & Hm & _).
-      rewrite ca_marks_eq, Hm in Ht. cbn in Ht. rewrite app_nil_r in Ht.
-      pose proof (client_assertion_sound _ _ _ _ _ _ _ _ Hc) as (c & keys & k & j' & e' & Hs).
-      destruct Hs as (_ & _ & _ & _ & _ & _ & _ & _ & _ & _ & _ & _ & He & Hexp & _).
-      assert (e' = e). { unfold ca_mark in Hm. rewrite He in Hm. destruct (ca_jti a); try discriminate. now injection Hm. }
-      subst e'. right. eapply jti_checks_client; [|exact Hexp|exact Ht].
+      destruct (client_auth_mark _ _ _ _ _ _ _ _ Hc) as (j & e & Hm & _ & Hle).
+      rewrite ca_marks_eq, Hm in Ht. unfold flat_map in Ht. rewrite app_nil_r in Ht.
+      rewrite jti_checks_silent in Ht; [easy| |assumption].
       apply (Hnl j e Hinv). apply in_or_app. left. rewrite Hm. now left. }
     (* jti of the grant assertion *)
     destruct (bearer_mark _ _ _ _ _ _ _ _ _ _ _ Hb) as [(_ & Hm & _)|(e & Hm & _ & Hle)];
       rewrite ba_marks_eq, Hm in Ht; [easy|].
-    unfold flat_map in Ht. rewrite app_nil_r in Ht. rewrite jti_checks_bearer in Ht; [easy| |assumption].
+    unfold flat_map in Ht. rewrite app_nil_r in Ht. rewrite jti_checks_silent in Ht; [easy| |assumption].
     apply (Hnl (ba_jti b) e Hinv). apply in_or_app. right. rewrite Hm. now left.
 Qed.
 
 Theorem monitor_on_model_trace w ops : forall s seen,
   mon_inv seen s ->
-  forall tag, In tag (mon_steps w (now s) seen (model_steps w s ops)) -> known tag.
+  forall tag, In tag (mon_steps w (now s) seen (model_steps w s ops)) -> False.
 Proof.
   induction ops as [|o r IH]; intros s seen Hinv tag; [easy|].
   cbn [model_steps]. destruct (step w s o) as [s' x] eqn:Hs. cbn [mon_steps].
@@ -205,35 +188,31 @@ Proof.
     intros j e Hin Hle. cbn in *. apply Hinv; [assumption|lia].
   - pose proof (step_tags_model w s (OAuth a) seen Hinv) as [Ht Hm]. rewrite Hs in Ht, Hm. cbn [snd] in Ht, Hm.
     destruct (step_tags w (now s) seen (OAuth a) (res_obs x)) as [tags ms]. cbn [fst snd] in *. subst ms.
-    intros Hin. apply in_app_or in Hin as [Hin|Hin]; [now apply Ht|].
+    intros Hin. apply in_app_or in Hin as [Hin|Hin]; [now apply (Ht tag)|].
     assert (Hnow : now s' = now s).
     { cbn in Hs. destruct (client_auth _ _ _ _ _); injection Hs as <- _. reflexivity. }
     rewrite <- Hnow in Hin. eapply IH; [|exact Hin].
     pose proof (inv_step w s (OAuth a) seen Hinv) as Hi. rewrite Hs in Hi. cbn [fst snd] in Hi. now apply Hi.
   - pose proof (step_tags_model w s (OGrant ca b) seen Hinv) as [Ht Hm]. rewrite Hs in Ht, Hm. cbn [snd] in Ht, Hm.
     destruct (step_tags w (now s) seen (OGrant ca b) (res_obs x)) as [tags ms]. cbn [fst snd] in *. subst ms.
-    intros Hin. apply in_app_or in Hin as [Hin|Hin]; [now apply Ht|].
+    intros Hin. apply in_app_or in Hin as [Hin|Hin]; [now apply (Ht tag)|].
     assert (Hnow : now s' = now s).
     { cbn in Hs. destruct (grant_request _ _ _ _ _); injection Hs as <- _. reflexivity. }
     rewrite <- Hnow in Hin. eapply IH; [|exact Hin].
     pose proof (inv_step w s (OGrant ca b) seen Hinv) as Hi. rewrite Hs in Hi. cbn [fst snd] in Hi. now apply Hi.
 Qed.
 
-(* from the empty memory, any start time: the verdict of the monitor on a model trace is silence or
-   one of the two recorded findings *)
-Corollary monitor_verdict_on_model w t0 ops :
-  match pick (mon_steps w t0 [] (model_steps w (start t0) ops)) with
-  | None => True
-  | Some tag => known tag
-  end.
+(* from the empty memory, any start time: the monitor raises no tag at all on a model trace, and its
+   verdict is silence *)
+Corollary monitor_silent_on_model w t0 ops :
+  mon_steps w t0 [] (model_steps w (start t0) ops) = [] /\
+  pick (mon_steps w t0 [] (model_steps w (start t0) ops)) = None.
 Proof.
-  assert (H : forall tag, In tag (mon_steps w t0 [] (model_steps w (start t0) ops)) -> known tag).
-  { apply (monitor_on_model_trace w ops (start t0) []). intros j e []. }
-  unfold pick. set (tags := mon_steps w t0 [] (model_steps w (start t0) ops)) in *.
-  destruct (filter (fun t => negb (mem t known_tags)) tags) as [|x l] eqn:E.
-  - destruct tags as [|y r]; [exact I|]. apply H. now left.
-  - apply H. assert (Hin : In x (filter (fun t => negb (mem t known_tags)) tags)) by (rewrite E; now left).
-    apply filter_In in Hin. tauto.
+  assert (H : mon_steps w t0 [] (model_steps w (start t0) ops) = []).
+  { destruct (mon_steps w t0 [] (model_steps w (start t0) ops)) as [|x r] eqn:E; [reflexivity|exfalso].
+    apply (monitor_on_model_trace w ops (start t0) [] (fun j e (H : In (j, e) []) => match H with end) x).
+    cbn [start now]. rewrite E. now left. }
+  rewrite H. split; reflexivity.
 Qed.
 
 (* correspondence and monitor judge the same thing: on the model's trace the correspondence check
